@@ -395,7 +395,7 @@ func cmpScan(args []string, j jdoc, rv srv.Value) string {
 		}
 		if why := mapsEq(jf, rf); why != "" {
 			if jsonPathExplains(jf, rf) {
-				// open finding C17-scan-json-path-field
+				// finding C17-scan-json-path-field (fixed in 903e555): a regression keeps its own signature
 				return fmt.Sprintf("json-path-field: item %d (%q): %s", i, id, why)
 			}
 			return fmt.Sprintf("item %d (%q): %s", i, id, why)
